@@ -385,7 +385,12 @@ class Sim:
             if data.get("anonymous_user") is not True:
                 self.shape_errors.append("c_join without anonymous_user")
             for m in self.sc.get("on_join", []):
-                self.push(t + self.latency, "deliver", m)
+                if self.sc.get("sync_join"):
+                    # the server's replies to the join are handled at once, on the socket thread, before `emit`
+                    # has even returned to the main thread (a legitimate timing of python-socketio)
+                    self.deliver(m, t)
+                else:
+                    self.push(t + self.latency, "deliver", m)
         elif event == "c_request_global_state":
             self.rec(["request_state"])
             self.push(t + self.latency, "deliver", {"m": "global_state", "state": list(self.server_state)})
